@@ -109,7 +109,9 @@ var earlyTable = []earlyT{
 	{"a\n++\nb", "accept", "-", "7.9.1: parsed as a; ++b"},
 	{"a ++\nb", "accept", "-", "7.9.1"},
 	{"x = 1 /*\n*/ y = 2", "accept", "asi_multiline_comment", "7.4 / 7.9: a MultiLineComment containing a line terminator acts as one"},
-	{"x\r \ny", "accept", "cr_peek", "7.3: CR is a LineTerminator"},
+	{"x\r \ny", "accept", "-", "7.3: CR is a LineTerminator"},
+	{"x\ra\n", "accept", "-", "7.3 / 7.9.1: ASI after CR"},
+	{"new\ra\n[ this ]", "accept", "-", "7.3"},
 	{"var a = 1 var b", "reject", "-", "7.9.1"},
 	{"var a,", "reject", "-", "12.2"},
 	{"var", "reject", "-", "12.2"},
